@@ -261,6 +261,10 @@ def enum_scope(pid, tier, seed, wd, bins, out):
             if len(cs) > 260: continue
             for c1 in cs:
                 for c2 in cs:
+                    # the second call must be valid after the first: a removal may kill ids, and
+                    # detach/remove/remove_subtree require a live id — after a removal keep only the
+                    # calls that accept removed ids (the eight inserts, append_value, new_node)
+                    if c1.startswith(("rem ", "rst ")) and c2.startswith(("det ", "rem ", "rst ")): continue
                     all_ops += ["hist %d" % nh] + h["ops"] + [c1, "qa", "qr", c2, "qa", "qr", "end"]; nh += 1
     for build in ("debug", "release"):
         r = vlib.run_ops_once(pid, wd, bins[build], build, all_ops, "enum-" + build)
